@@ -662,9 +662,41 @@ func (ex *Exec) fieldKey(n *types.Named, st *types.Struct, f string) string {
 
 func (ex *Exec) fieldArraySort(fs *Sort) *Sort { return ex.w.mapGSort(sRef, fs) }
 
+// fieldAddr: the address of a struct-typed field of a heap object is a reference of its own, an
+// injective function of the enclosing object.
+func (ex *Exec) fieldAddr(baseT string, baseGo types.Type, fname string) string {
+	fn := sym("fieldaddr_" + ex.w.typeString(baseGo) + "." + fname)
+	if !ex.w.declared[fn] {
+		ex.w.declFun(fn, []*Sort{sRef}, sRef)
+		inv := sym("fieldaddr_inv_" + ex.w.typeString(baseGo) + "." + fname)
+		ex.w.declFun(inv, []*Sort{sRef}, sRef)
+		ex.w.axioms = append(ex.w.axioms, fmt.Sprintf("(forall ((r Ref)) (! (and (= (%s (%s r)) r) (not (= (%s r) nil))) :pattern ((%s r))))", inv, fn, fn, fn))
+	}
+	return sApp(fn, baseT)
+}
+
+// nestedStruct reports whether ft is a struct type of this repository stored by value: such a field
+// is modelled as a sub-object (its fields live in the heap arrays of its own type, at fieldAddr), so
+// that methods called on &x.f and direct reads x.f.g see the same storage.
+func (ex *Exec) nestedStruct(ft types.Type) bool {
+	n, stT, isPtr := structOf(ft)
+	if stT == nil || isPtr || n == nil || n.Obj().Pkg() == nil {
+		return false
+	}
+	for _, pk := range ex.prog.Pkgs {
+		if pk.P.Types == n.Obj().Pkg() {
+			return true
+		}
+	}
+	return false
+}
+
 func (ex *Exec) loadField(st *State, base Val, f *types.Var) Val {
 	n, stT, _ := structOf(base.Go)
 	ft := ex.fieldType(base.Go, f)
+	if ex.nestedStruct(ft) {
+		return ex.loadStruct(st, ex.fieldAddr(base.T, base.Go, f.Name()), ft)
+	}
 	fs := ex.w.sortOf(ft)
 	if arr, ok := types.Unalias(ft).Underlying().(*types.Array); ok {
 		return ex.arrayFieldSlice(base.T, n, stT, f.Name(), arr, ft)
@@ -725,6 +757,11 @@ func (ex *Exec) fieldType(base types.Type, f *types.Var) types.Type {
 func (ex *Exec) storeField(st *State, base Val, f *types.Var, v Val) {
 	n, stT, _ := structOf(base.Go)
 	ft := ex.fieldType(base.Go, f)
+	if ex.nestedStruct(ft) {
+		v.Go = ft
+		ex.storeStruct(st, ex.fieldAddr(base.T, base.Go, f.Name()), v)
+		return
+	}
 	fs := ex.w.sortOf(ft)
 	if arr, ok := types.Unalias(ft).Underlying().(*types.Array); ok {
 		// whole-array store into the object's own backing array
